@@ -29,6 +29,9 @@ func kfColor(args []KeyBuilderStage) (KeyBuilderStage, error) {
 	}), nil
 }
 
+// maxRepeatBytes bounds the output of {repeat}: a huge count must not overflow or exhaust memory
+const maxRepeatBytes = 1 << 20
+
 // {repeat c {count}}
 func kfRepeat(args []KeyBuilderStage) (KeyBuilderStage, error) {
 	if len(args) != 2 {
@@ -45,7 +48,7 @@ func kfRepeat(args []KeyBuilderStage) (KeyBuilderStage, error) {
 		if err != nil {
 			return ErrorNum
 		}
-		if count < 0 {
+		if count < 0 || (len(char) > 0 && count > maxRepeatBytes/len(char)) {
 			return ErrorValue
 		}
 		return strings.Repeat(char, count)
